@@ -457,6 +457,11 @@ RCP<const Basic> add(const RCP<const Basic> &a, const RCP<const Basic> &b)
             Add::as_coef_term(a, outArg(coef2), outArg(t));
             Add::dict_add_term(d, coef2, t);
         }
+    } else if (is_a_Number(*a) and is_a_Number(*b)) {
+        // Plain number arithmetic: keeps a + b == b + a also when one of
+        // them is a floating point zero
+        return addnum(rcp_static_cast<const Number>(a),
+                      rcp_static_cast<const Number>(b));
     } else {
         Add::as_coef_term(a, outArg(coef), outArg(t));
         Add::dict_add_term(d, coef, t);
